@@ -3,7 +3,10 @@ package main
 import (
 	"encoding/json"
 	"fmt"
+	"math"
+	"math/big"
 	"sort"
+	"strconv"
 	"strings"
 
 	. "verifharness/hlib"
@@ -97,6 +100,7 @@ type comp struct {
 	key        string
 	idx        int
 	hasS, hasE bool
+	sv, ev     any // when non-nil: the Go value of the bound (float64, *big.Int, json.Number) instead of s / e
 	s, e       int
 	bad        any
 }
@@ -114,6 +118,12 @@ func (c comp) goVal() any {
 		}
 		if c.hasE {
 			m["end"] = c.e
+		}
+		if c.sv != nil {
+			m["start"] = c.sv
+		}
+		if c.ev != nil {
+			m["end"] = c.ev
 		}
 		return m
 	}
@@ -133,6 +143,12 @@ func (c comp) sexp() string {
 		}
 		if c.hasE {
 			e = fmt.Sprint(c.e)
+		}
+		if c.sv != nil {
+			s = boundSexp(c.sv)
+		}
+		if c.ev != nil {
+			e = boundSexp(c.ev)
 		}
 		return "(sl " + s + " " + e + ")"
 	}
@@ -231,9 +247,92 @@ func (g *gen) badComp() any {
 	return true
 }
 
+// special slice bounds: fractions, -0.0, NaN, +-Inf, 1e300, big integers, json.Number spellings
+func specialBounds() []any {
+	big1, _ := new(big.Int).SetString("18446744073709551616", 10)
+	big2, _ := new(big.Int).SetString("-18446744073709551616", 10)
+	return []any{0.5, -0.5, 1.5, -1.5, 2.9, -2.9, math.Copysign(0, -1), math.NaN(), math.Inf(1), math.Inf(-1), 1e300,
+		big1, big2, json.Number("1.5"), json.Number("-1e0"), json.Number("-1.5"), json.Number("2"), 2.0, -1.0}
+}
+
+// boundSexp: a slice bound for the models: an integer, (fr <floor>) for a non-integer, nan
+func boundSexp(v any) string {
+	switch x := v.(type) {
+	case int:
+		return fmt.Sprint(x)
+	case *big.Int:
+		return x.String()
+	case json.Number:
+		t := x.String()
+		if strings.ContainsAny(t, ".eE") {
+			f, _ := strconv.ParseFloat(t, 64)
+			return boundSexp(f)
+		}
+		b, _ := new(big.Int).SetString(t, 10)
+		return b.String()
+	case float64:
+		switch {
+		case math.IsNaN(x):
+			return "nan"
+		case math.IsInf(x, 1):
+			return "100000000000000000000"
+		case math.IsInf(x, -1):
+			return "-100000000000000000000"
+		}
+		fl := math.Floor(x)
+		bi, _ := new(big.Float).SetFloat64(fl).Int(nil)
+		if fl == x {
+			return bi.String()
+		}
+		return "(fr " + bi.String() + ")"
+	}
+	return "n"
+}
+
+// the integer start / end the code's rounding gives (toInt truncates, toIntCeil rounds up), for guidance only
+func boundInt(v any, ceil bool) int {
+	switch x := v.(type) {
+	case int:
+		return x
+	case *big.Int:
+		if x.Sign() > 0 {
+			return 1 << 40
+		}
+		return -(1 << 40)
+	case json.Number:
+		f, _ := strconv.ParseFloat(x.String(), 64)
+		return boundInt(f, ceil)
+	case float64:
+		if math.IsNaN(x) {
+			return -(1 << 40)
+		}
+		if ceil {
+			x = math.Ceil(x)
+		}
+		if x > 1e12 {
+			return 1 << 40
+		}
+		if x < -1e12 {
+			return -(1 << 40)
+		}
+		return int(x)
+	}
+	return 0
+}
+
 func (g *gen) sliceComp(n int) comp {
 	r := g.r
 	c := comp{kind: 's'}
+	defer func() {}()
+	if r.Chance(1, 3) {
+		sb := specialBounds()
+		if r.Chance(2, 3) {
+			c.sv = sb[r.Intn(len(sb))]
+		}
+		if r.Chance(2, 3) || c.sv == nil {
+			c.ev = sb[r.Intn(len(sb))]
+		}
+	}
 	if r.Chance(3, 4) {
 		c.hasS, c.s = true, r.Intn(n+4)-n-1
 	}
@@ -258,10 +357,14 @@ func clampI(i, lo, hi int) int {
 
 func sliceOf(x []any, c comp) any {
 	st, en := 0, len(x)
-	if c.hasS {
+	if c.sv != nil {
+		st = clampI(boundInt(c.sv, false), 0, len(x))
+	} else if c.hasS {
 		st = clampI(c.s, 0, len(x))
 	}
-	if c.hasE {
+	if c.ev != nil {
+		en = clampI(boundInt(c.ev, true), st, len(x))
+	} else if c.hasE {
 		en = clampI(c.e, st, len(x))
 	}
 	return x[st:en]
@@ -341,6 +444,28 @@ func natTailCases(seed uint64, all bool) []*natCase {
 		func() any { return []any{[]any{0, 1}, map[string]any{"a": 2}, 4, []any{5}} },
 	}
 	var cs []*natCase
+	// special bounds (fractions, -0.0, NaN, +-Inf, 1e300, big ints, json.Number) in start and end position:
+	// read (getpath), write (setpath) and delete (delpaths) through the same slice
+	sb := append([]any{nil, 1, -1}, specialBounds()...)
+	for _, arr := range []func() any{func() any { return []any{1, 2, 3} }, func() any { return []any{0, 1, 2, 3, 4} }} {
+		for _, sv := range sb {
+			for _, ev := range sb {
+				c := comp{kind: 's', sv: sv, ev: ev}
+				if i, ok := sv.(int); ok {
+					c.sv, c.hasS, c.s = nil, true, i
+				}
+				if i, ok := ev.(int); ok {
+					c.ev, c.hasE, c.e = nil, true, i
+				}
+				p := gpath{c}
+				cs = append(cs, &natCase{kind: "getpath", v: arr(), p: p},
+					&natCase{kind: "setpath", v: arr(), p: p, n: []any{"x"}},
+					&natCase{kind: "setpath", v: arr(), p: p, n: []any{"x", "y"}},
+					&natCase{kind: "delpaths", v: arr(), ps: []gpath{p}},
+					&natCase{kind: "delpaths", v: arr(), ps: []gpath{p, {comp{kind: 'i', idx: -1}}}})
+			}
+		}
+	}
 	n := len(alts)
 	for _, in := range inputs {
 		for i := 0; i < n; i++ {
